@@ -43,10 +43,13 @@ def setAt {β} (l : List β) (i : Nat) (x : β) : List β := l.set i x
 def modelRun (o : Ords) (progs : List (List Call)) (sched : List Nat) : String :=
   let n := progs.length
   let s0 := init fun t => progs.getD t []
-  let rec go (s : St) (sched : List Nat) (a : Acc) : Acc :=
+  -- every shim operation takes two grants: the first performs it, the second only lets the plain
+  -- code after it run (no model step)
+  let rec go (s : St) (sched : List Nat) (a : Acc) (post : List Bool) : Acc :=
     match sched with
     | [] => a
     | t :: rest =>
+      if post.getD t false then go s rest a (setAt post t false) else
       let i := s.msgs.length - 1
       match describe o s t i, step o s t i with
       | some (ev, fin), some s' =>
@@ -55,10 +58,10 @@ def modelRun (o : Ords) (progs : List (List Call)) (sched : List Nat) : String :
         match fin with
         | some r =>
           let call := "+".intercalate curT ++ "=" ++ r
-          go s' rest ⟨setAt a.cur t [], setAt a.done t (a.done.getD t [] ++ [call])⟩
-        | none => go s' rest ⟨setAt a.cur t curT, a.done⟩
-      | _, _ => go s rest a
-  let a := go s0 sched ⟨List.replicate n [], List.replicate n []⟩
+          go s' rest ⟨setAt a.cur t [], setAt a.done t (a.done.getD t [] ++ [call])⟩ (setAt post t true)
+        | none => go s' rest ⟨setAt a.cur t curT, a.done⟩ (setAt post t true)
+      | _, _ => go s rest a post
+  let a := go s0 sched ⟨List.replicate n [], List.replicate n []⟩ (List.replicate n false)
   "/".intercalate (a.done.map fun calls => ",".intercalate calls)
 
 /-- orderings seen in the implementation's events (source orderings where none was seen) -/
